@@ -14,7 +14,9 @@ SMALL = ["Byte", "Int8ub", "Int8ul", "Int16ub", "Int16ul", "Int24ub", "Int32ul",
 
 
 class Gen:
-    def __init__(self, rng, maxdepth=3, arity=4, fragment="full"):
+    def __init__(self, rng, maxdepth=3, arity=4, fragment="full", reparse_safe=False):
+        # reparse_safe (C02): terminator-delimited regions only around data that cannot contain the terminator once parsed
+        self.reparse_safe = reparse_safe
         self.rng = rng
         self.maxdepth = maxdepth
         self.arity = arity
@@ -134,13 +136,25 @@ class Gen:
             incl = r.random() < 0.35 and lf[1] != "VarInt"
             return ["Prefixed", lf, self.recipe(depth - 1, True), incl]
         if c < 0.55:
-            inner = self.recipe(depth - 1, True)
+            # reparse_safe: no greedy construct inside a zero-padded region (the padding would parse as further elements)
+            inner = self.recipe(depth - 1, not self.reparse_safe)
             return ["FixedSized", self.len_for(inner), inner]
+        if c < 0.60 and self.reparse_safe:
+            inner = r.choice([["name", "GreedyBytes"], ["GreedyString", "ascii"], ["GreedyString", "utf8"], ["GreedyRange", ["OneOf", ["name", "Byte"], [1, 2, 3]]]])
+            return ["NullTerminated", inner, tag(r.choice([b"\x00", b"\xff"])), False, True, True]
         if c < 0.60:
-            term = r.choice([b"\x00", b"\x00", b"\x00\x00", b"\r\n", b"\xff"])
-            return ["NullTerminated", self.recipe(depth - 1, True), tag(term), False, True, True]
+            inner = self.recipe(depth - 1, True)
+            term = r.choice([b"\x00", b"\x00", b"\xff", b"\xfe"])
+            # a multi-byte terminator is only defined over unit-aligned data (Issue 1046): use it over even-sized inner constructs only
+            try:
+                if M.size(inner, M.top_scope(dict(self.kw))) % 2 == 0 and r.random() < 0.5:
+                    term = r.choice([b"\x00\x00", b"\r\n"])
+            except (M.Unsized, M.MissingKey, M.ModelGap):
+                pass
+            return ["NullTerminated", inner, tag(term), False, True, True]
         if c < 0.63 and tail:
-            return ["NullStripped", self.recipe(depth - 1, True), tag(r.choice([b"\x00", b"\x20"]))]
+            # NullStripped is only symmetric around raw greedy data (anything else may legitimately end in the pad byte)
+            return ["NullStripped", r.choice([["name", "GreedyBytes"], ["GreedyString", "ascii"], ["GreedyString", "utf8"]]), tag(r.choice([b"\x00", b"\x20"]))]
         if c < 0.69:
             inner = self.sized(depth - 1)
             return ["Padded", self.len_for(inner), inner, tag(r.choice([b"\x00", b"*"]))]
@@ -162,7 +176,9 @@ class Gen:
 
     def optional_inner(self):
         # Optional at the end of a region: alternatives that cannot be confused with "nothing"
-        return self.rng.choice([["Const", tag(b"\xfe\xed"), None], ["name", "Int16ub"], ["OneOf", ["name", "Byte"], [1, 2, 3]]])
+        # (not Const/Default/...: anything that builds from nothing makes Optional.build(None) emit bytes - the alternatives
+        #  would be confusable between the two directions)
+        return self.rng.choice([["name", "Int16ub"], ["OneOf", ["name", "Byte"], [1, 2, 3]], ["Bytes", 2], ["name", "Int32sl"]])
 
     def nonzero(self, depth):
         """element of a repeater: never statically zero-width, never greedy"""
@@ -273,7 +289,7 @@ class Gen:
                 elif d < 0.62:
                     ms.append([name, ["PaddedString", ref, "ascii"]])
                 elif d < 0.72:
-                    ms.append([name, ["FixedSized", ["bin", "+", ref, 6], self.recipe(depth - 1, True)]])
+                    ms.append([name, ["FixedSized", ["bin", "+", ref, 6], self.recipe(depth - 1, not self.reparse_safe)]])
                 elif d < 0.85:
                     cases = [[k, self.recipe(depth - 1, tail and last)] for k in r.sample([0, 1, 2, 3], r.randint(1, 3))]
                     ms.append([name, ["Switch", ref, cases, self.recipe(depth - 1, tail and last) if r.random() < 0.5 else None]])
